@@ -15,6 +15,11 @@ CHECKS = {
         technique="stateful property-based testing (rapidcheck rc::state) + exhaustive enumeration of short command sequences, list/dict reference model, ASan/UBSan build",
         text="Command sequences over the public InstMgr API are executed against the real library and a reference model after every step; all sequences up to a small length are enumerated, long ones are random; run on a plain and a sanitizer build.",
         note="Generator preconditions P1-P8 (documented in harness/instmgr_sm.cc and DESIGN.md) restrict sequences to what real callers do; exact values of automatic ids are not asserted, only freshness/ordering."),
+    "C14": dict(
+        level="exploration", ref="DESIGN.md section 4 C14",
+        technique="property-based testing (Hypothesis): generated schema x 2-3 populations with overlapping ids, model comparison of the appended session under a per-file id offset via an independent Part 21 parser",
+        text="ReadExchangeFile + AppendExchangeFile(s) on generated populations whose ids collide by construction; the written session is parsed independently and every instance and every reference of an appended file must equal the model shifted by one common offset larger than all earlier ids.",
+        note="Only the existence of one common offset > max earlier id is asserted, not its value. Header merging is not part of the statement and not compared."),
     "C19": dict(
         level="exploration", ref="DESIGN.md section 4 C19",
         technique="stateful property-based testing (Hypothesis RuleBasedStateMachine) + exhaustive enumeration of short operation sequences against a list/multiset/set model",
